@@ -155,29 +155,45 @@ func c06ThroughPipe(run *mc.Run, s sets, pid string) int {
 		go func() {
 			defer wg.Done()
 			for xs := range jobs {
+				// every line is written twice in a row, byte for byte (sshd prints "Failed password ..." once per
+				// wrong attempt on the same connection): each copy is a line of its own and yields its own event
 				var lines []string
 				for _, x := range xs {
-					lines = append(lines, pid+" "+x.Line+"\n")
+					lines = append(lines, pid+" "+x.Line+"\n", pid+" "+x.Line+"\n")
 				}
 				t0 := time.Now()
 				o := throughPipe(dir, lines)
 				o.T0, o.T1 = t0, time.Now()
-				if len(o.Events) == len(xs) && o.Panic == nil {
+				if len(o.Events) == 2*len(xs) && o.Panic == nil {
 					for k, x := range xs {
-						judge(x, o, k)
+						judge(x, o, 2*k)
+						judge(x, o, 2*k+1)
 					}
 					continue
 				}
-				for _, x := range xs { // find the lines that do not yield exactly one event
-					t0 := time.Now()
-					o := throughPipe(dir, []string{pid + " " + x.Line + "\n"})
-					o.T0, o.T1 = t0, time.Now()
-					if len(o.Events) != 1 || o.Panic != nil {
-						run.Violation("C06:piped:"+x.Form+":event-count", map[string]any{"pid": pid, "line": x.Line},
-							fmt.Sprintf("line %q written to the sshd pipe yields %d events (panic %v), want exactly 1", x.Line, len(o.Events), o.Panic))
-						continue
+				for _, x := range xs { // find the lines that do not yield exactly one event per copy
+					for copies := 1; copies <= 2; copies++ {
+						t0 := time.Now()
+						var o obs
+						if copies == 1 {
+							o = throughPipe(dir, []string{pid + " " + x.Line + "\n"})
+						} else {
+							o = throughPipe(dir, []string{pid + " " + x.Line + "\n", pid + " " + x.Line + "\n"})
+						}
+						o.T0, o.T1 = t0, time.Now()
+						if len(o.Events) != copies || o.Panic != nil {
+							what := "event-count"
+							if copies == 2 {
+								what = "repeated-line-event-count"
+							}
+							run.Violation("C06:piped:"+x.Form+":"+what, map[string]any{"pid": pid, "line": x.Line, "copies": copies},
+								fmt.Sprintf("line %q written %d time(s) in a row to the sshd pipe yields %d events (panic %v), want exactly %d", x.Line, copies, len(o.Events), o.Panic, copies))
+							break
+						}
+						for k := 0; k < copies; k++ {
+							judge(x, o, k)
+						}
 					}
-					judge(x, o, 0)
 				}
 			}
 		}()
@@ -250,10 +266,27 @@ var framings = []framing{
 	{"trailing-blank", func(m string) string { return m + " " }, func(p, m string) string { return p + " " + m + " \n" }},
 	{"trailing-tab", func(m string) string { return m + "\t" }, func(p, m string) string { return p + " " + m + "\t\n" }},
 	{"trailing-cr", func(m string) string { return m + "\r" }, func(p, m string) string { return p + " " + m + "\r\n" }},
+	// the same message arriving WITHOUT its pid prefix (a continuation line, a template without %procid%): the
+	// line still reads "<pid> <message>" with its first word in the pid position - nothing remembered from an
+	// earlier line may fill in (the batches put it right after ordinary lines of the same connection)
+	{"no-pid-prefix", func(m string) string { _, rest, _ := strings.Cut(m, " "); return strings.TrimLeft(rest, " ") }, func(p, m string) string { return m + "\n" }},
+}
+
+// pidOf is the pid token the processor must see for message m framed by fr after pid p.
+func (fr framing) pidOf(p, m string) string {
+	if fr.tag == "no-pid-prefix" {
+		first, _, _ := strings.Cut(m, " ")
+		return first
+	}
+	return p
 }
 
 type c07case struct {
-	form, pid, msg, line, tag string
+	Form string `json:"form"`
+	Pid  string `json:"pid"`
+	Msg  string `json:"msg"`
+	Line string `json:"line"`
+	Tag  string `json:"tag"`
 }
 
 // throughPipe writes the lines to a real FIFO read by the real SyslogIngester.Ingest (named-pipe
@@ -319,7 +352,7 @@ func direct(cases []c07case) (o obs) {
 					o.Panic = p
 				}
 			}()
-			if err := r.proc.ProcessSshdLogEntry(context.Background(), sshd.SshdLogEntry{PID: c.pid, Message: c.msg}); err != nil && o.Err == nil {
+			if err := r.proc.ProcessSshdLogEntry(context.Background(), sshd.SshdLogEntry{PID: c.Pid, Message: c.Msg}); err != nil && o.Err == nil {
 				o.Err = err
 			}
 		}()
@@ -353,11 +386,31 @@ func runC07(run *mc.Run) int {
 	}
 	dir = filepath.Join(dir, "c07-fifos")
 	_ = os.MkdirAll(dir, 0o755)
+	if run.Replay != "" {
+		var rp struct {
+			Cases []c07case `json:"cases"`
+		}
+		if _, err := mc.LoadReplay(run.Replay, &rp); err != nil || len(rp.Cases) == 0 {
+			fmt.Println("cannot load replay:", err)
+			return 2
+		}
+		var lines []string
+		for _, c := range rp.Cases {
+			lines = append(lines, c.Line)
+		}
+		a, b := direct(rp.Cases), throughPipe(dir, lines)
+		fmt.Printf("direct:\n%sthrough the pipe:\n%s", a.canon(), b.canon())
+		if a.canon() != b.canon() {
+			fmt.Printf("VIOLATION property=C07 replay=%s\n", run.Replay)
+			return 1
+		}
+		return 0
+	}
 	// all cases
 	var all []c07case
 	add := func(x Exp, p string) {
 		for _, fr := range framings {
-			all = append(all, c07case{x.Form, p, fr.msg(x.Line), fr.line(p, x.Line), fr.tag})
+			all = append(all, c07case{x.Form, fr.pidOf(p, x.Line), fr.msg(x.Line), fr.line(p, x.Line), fr.tag})
 		}
 		sm.add(x.Form, p+" "+x.Line+"\\n")
 	}
@@ -374,7 +427,7 @@ func runC07(run *mc.Run) int {
 	compare := func(cs []c07case) bool {
 		var lines []string
 		for _, c := range cs {
-			lines = append(lines, c.line)
+			lines = append(lines, c.Line)
 		}
 		a, b := direct(cs), throughPipe(dir, lines)
 		return a.canon() == b.canon()
@@ -389,15 +442,45 @@ func runC07(run *mc.Run) int {
 					continue
 				}
 				// locate the lines that differ: each one alone
+				found := false
 				for _, c := range cs {
 					one := []c07case{c}
-					a, b := direct(one), throughPipe(dir, []string{c.line})
+					a, b := direct(one), throughPipe(dir, []string{c.Line})
 					if a.canon() != b.canon() {
+						found = true
 						atomic.AddInt64(&differ, 1)
-						run.Violation("C07:"+c.form+":"+c.tag, map[string]any{"pid": c.pid, "line": c.msg, "framed": c.line},
-							fmt.Sprintf("(pid %q, message %q) handed to the processor directly gives\n%sbut the line %q delivered through the pipe into the syslog ingester gives\n%s", c.pid, c.msg, a.canon(), c.line, b.canon()))
+						run.Violation("C07:"+c.Form+":"+c.Tag, map[string]any{"pid": c.Pid, "line": c.Msg, "framed": c.Line},
+							fmt.Sprintf("(pid %q, message %q) handed to the processor directly gives\n%sbut the line %q delivered through the pipe into the syslog ingester gives\n%s", c.Pid, c.Msg, a.canon(), c.Line, b.canon()))
 					}
 				}
+				if found {
+					continue
+				}
+				// no line differs on its own: what a line yields depends on the lines before it. Shortest differing
+				// prefix (bisection), then the shortest suffix of that prefix that still differs.
+				lo, hi := 1, len(cs) // invariant: cs[:hi] differs
+				for lo < hi {
+					mid := (lo + hi) / 2
+					if compare(cs[:mid]) {
+						lo = mid + 1
+					} else {
+						hi = mid
+					}
+				}
+				from := hi - 1
+				for from > 0 && compare(cs[from:hi]) {
+					from--
+				}
+				ctxc := cs[from:hi]
+				c := ctxc[len(ctxc)-1]
+				var lines []string
+				for _, x := range ctxc {
+					lines = append(lines, x.Line)
+				}
+				a, b := direct(ctxc), throughPipe(dir, lines)
+				atomic.AddInt64(&differ, 1)
+				run.Violation("C07:"+c.Form+":"+c.Tag+":after-other-lines", map[string]any{"cases": ctxc},
+					fmt.Sprintf("the %d lines %q delivered through the pipe one after the other give\n%sbut their (pid, message) pairs handed to the processor directly give\n%s(each line alone agrees: the last line's result depends on the lines before it)", len(lines), lines, b.canon(), a.canon()))
 			}
 		}()
 	}
@@ -418,7 +501,7 @@ func runC07(run *mc.Run) int {
 	// audit side: every record line of the audit generator parses identically with and without its newline
 	na, bad := auditLinesSame(run)
 	cov := mc.Coverage{Level: "exploration", Evaluations: n*2 + na*2, Distinct: n/len(framings) + na, Exhaustive: complete, Samples: sm.samples,
-		Rule:  "differential, end to end: every (pid,message) of the C06 product (+ messages with internal runs of blanks) is processed once directly by the real sshd processor and once written as a framed line to a real FIFO read by the real SyslogIngester.Ingest (named-pipe ingester -> syslog ingester -> processor); framings: '<pid> <msg>\\n', 3 padding blanks, and the message ending in blank / tab / CR; lines go in batches of 400, a differing batch is re-run line by line; events (minus wall-clock stamp), forwarded logins, counter deltas and errors must be equal. Every generated audit record line is parsed by auparse with and without its trailing newline. distinct_nontrivial = distinct (pid,message) pairs + distinct audit lines",
+		Rule:  "differential, end to end: every (pid,message) of the C06 product (+ messages with internal runs of blanks) is processed once directly by the real sshd processor and once written as a framed line to a real FIFO read by the real SyslogIngester.Ingest (named-pipe ingester -> syslog ingester -> processor); framings: '<pid> <msg>\\n', 3 padding blanks, the message ending in blank / tab / CR, and the message without its pid prefix right after ordinary lines (its first word then IS the pid token); lines go in batches of 400, a differing batch is re-run line by line; events (minus wall-clock stamp), forwarded logins, counter deltas and errors must be equal. Every generated audit record line is parsed by auparse with and without its trailing newline. distinct_nontrivial = distinct (pid,message) pairs + distinct audit lines",
 		Extra: map[string]any{"lines_per_form": sm.forms, "framings": len(framings), "batches": batches, "pairs_that_differ": differ, "audit_lines": na, "audit_lines_differing": bad}}
 	cov.Assumptions = []string{"which layer strips the record terminator is not assumed: the framed path starts at the pipe"}
 	return run.Finish(cov)
